@@ -546,6 +546,11 @@ def inline_simple_helpers(fnode, resolve, depth=2):
             if pr is None:
                 return None
             body, mapping = pr
+            # a result the caller discards: the trailing `return e` is dropped
+            if body and isinstance(body[-1], ast.Return) and \
+                    body[-1].value is not None and not any(
+                        isinstance(n, ast.Call) for n in ast.walk(body[-1].value)):
+                body = body[:-1]
             if any(isinstance(n, ast.Return) and n.value is not None
                    for b in body for n in ast.walk(b)) or \
                     any(isinstance(n, (ast.Yield, ast.YieldFrom))
